@@ -220,8 +220,9 @@ CLAIMED.update({
             "<= 3 connections / idle disconnects on one object, then a connection that must deliver the peer's bytes, report the "
             "close once and leave all flags at rest. "
             "Trusted: CrossHair + chx, the Park model of blocking waits (rigs/park.py), oracles/refe37.py, socket/select/sleep contract "
-            "stubs. NOT claimed (not encodable): TcpServerConnection/TcpClientConnection enable()/disable() accept/connect thread "
-            "handshakes around real sockets; preemption between disconnect() and the receiver thread.",
+            "stubs. server_stop_handshake: the accept loop of TcpServerConnection against disable() arriving in any of its first "
+            "select() calls (every outcome of that call). NOT claimed: the client connection's connect thread, a peer connecting "
+            "while disable() runs, preemption between disconnect() and the receiver thread.",
             "DESIGN.md §3 C09"),
 })
 
